@@ -27,7 +27,7 @@ def cases(tier, seed):
     rng = random.Random('C13|%d' % seed)
     T = tier == 'thorough'
     cs = []
-    nstruct = 70 if not T else 600
+    nstruct = 130 if not T else 600
     k = 2 if not T else 5
     for i in range(nstruct):
         d = rng.choice([2, 2, 3, 3, 4, 5])
